@@ -13,12 +13,20 @@ _ids = itertools.count()
 def gen_case(rng):
     return {'kind': 'onceset', 'k': rng.choice([1, 2, 10]), 'at': rng.choice([1, 2, 3]),
             'value': rng.choice([0, 500, -7]), 'how': rng.choice(['set', 'set', 'accumulate', 'null']),
-            'ticks': rng.choice([4, 5, 6]), 'init': rng.choice([0, 3]), 'default': rng.choice([0, 9])}
+            'ticks': rng.choice([4, 5, 6]), 'init': rng.choice([0, 3]), 'default': rng.choice([0, 9]),
+            'reduce': rng.random() < 0.3}
 
 
 def corpus():
     return [{'kind': 'onceset', 'k': 10, 'at': 2, 'value': 500, 'how': 'set', 'ticks': 5, 'init': 0, 'default': 0},
-            {'kind': 'onceset', 'k': 2, 'at': 1, 'value': 0, 'how': 'set', 'ticks': 4, 'init': 3, 'default': 9}]
+            {'kind': 'onceset', 'k': 2, 'at': 1, 'value': 0, 'how': 'set', 'ticks': 4, 'init': 3, 'default': 9},
+            # the overriding update is a `_reduce` over another subtree that names `set` for its result
+            {'kind': 'onceset', 'k': 10, 'at': 2, 'value': 500, 'how': 'set', 'ticks': 5, 'init': 0, 'default': 0,
+             'reduce': True}]
+
+
+def _sum_leaves(value, path, node):
+    return value + node.value if node.leaf and isinstance(node.value, (int, float)) else value
 
 
 def reference(case):
@@ -52,19 +60,25 @@ def run_impl(case):
             self.n = 0
 
         def ports_schema(self):
-            return {'tank': {'level': {'_default': case['default']}}}
+            return {'tank': {'level': {'_default': case['default']}},
+                    'parts': {'a': {'_default': 0}, 'b': {'c': {'_default': 0}}}}
 
         def next_update(self, timestep, states):
             self.n += 1
             if self.n == case['at']:
+                if case.get('reduce'):
+                    # the value is the result of a reduction over the subtree `parts` (its leaves sum to it)
+                    return {'tank': {'level': {'_reduce': {'reducer': _sum_leaves, 'from': ('..', '..', 'parts'),
+                                                           'initial': 0}, '_updater': case['how']}}}
                 return {'tank': {'level': {'_value': case['value'], '_updater': case['how']}}}
             return {}
 
     obs = {}
     try:
         eng = Engine(processes={'inflow': Inflow(), 'once': Once()},
-                     topology={'inflow': {'tank': ('tank',)}, 'once': {'tank': ('tank',)}},
-                     initial_state={'tank': {'level': case['init']}}, emitter={'type': 'null'},
+                     topology={'inflow': {'tank': ('tank',)}, 'once': {'tank': ('tank',), 'parts': ('parts',)}},
+                     initial_state={'tank': {'level': case['init']},
+                                    'parts': {'a': case['value'] - 3, 'b': {'c': 3}}}, emitter={'type': 'null'},
                      display_info=False, progress_bar=False)
         vals = []
         for _ in range(case['ticks']):
